@@ -1,3 +1,4 @@
+// repaired by 78498b4 (F32)
 // demo1 -- `Self` inside the free function generated for `Eq`.                 SYMPTOM: compile error
 //
 // Expected by C20: derive_ex accepts this item without a message of its own; the `key` expression
